@@ -652,6 +652,46 @@ func checkCase(c Case) *ev.Violation {
 					}
 				}
 			}
+		case "copyattached":
+			// a by-value copy of a cell that already lives in an attached row (it has been through AddRow, callbacks and
+			// all) is added to another row, or the same one: there it is a new cell like any other
+			var srcs, dsts []*gen.MRow
+			for _, mr := range w.m.All {
+				if mr.Sep || mr.NilCells {
+					continue
+				}
+				dsts = append(dsts, mr)
+				if mr.Attached && len(mr.Cells) > 0 && len(mr.Real.Cells()) == len(mr.Cells) {
+					srcs = append(srcs, mr)
+				}
+			}
+			if len(srcs) == 0 {
+				break
+			}
+			src := srcs[((st.Ref%len(srcs))+len(srcs))%len(srcs)]
+			dst := dsts[((st.Col%len(dsts))+len(dsts))%len(dsts)]
+			if len(dst.Real.Cells()) != len(dst.Cells) {
+				break
+			}
+			j := ((st.Target % len(src.Cells)) + len(src.Cells)) % len(src.Cells)
+			cp := src.Real.Cells()[j] // a Cell value
+			w.predictOp(gen.Op{K: "rowadd", Ref: w.rowIndex(dst), Items: []gen.Item{src.Cells[j].It}}, &pred)
+			dst.Real.Add(cp)
+			dst.Cells = append(dst.Cells, src.Cells[j])
+			if dst.Attached {
+				dst.LateAdds++
+				if len(dst.Cells) > w.m.MaxEver {
+					w.m.MaxEver = len(dst.Cells)
+				}
+			}
+			// what the source cell itself owned, the copy owns too
+			var clones []*reg
+			for _, r := range w.regs {
+				if r.owner == "cell" && r.row == src && r.cell == j {
+					clones = append(clones, &reg{id: r.id, owner: "cell", row: dst, cell: len(dst.Cells) - 1, when: r.when, target: r.target})
+				}
+			}
+			w.regs = append(w.regs, clones...)
 		case "dense":
 			// one slot gets crowded: N cell callbacks on the table and one on each of the first columns, all at the same time
 			n := st.N
@@ -863,6 +903,8 @@ func Classify(c Case) (bool, interface{}, []string) {
 			if st.N >= 3 && st.Target%3 != 0 {
 				add("copies-of-a-cell-with-3-or-more-callbacks-each-get-one-more")
 			}
+		case "copyattached":
+			add("copy-of-an-attached-cell-added-to-a-row")
 		case "dense":
 			add("crowded-slot")
 		}
